@@ -34,7 +34,7 @@ Lemma orep_arr h ps js v fp :
     v = HArr a off len cap /\ nth_error h a = Some (OArr cells) /\ off + len <= length cells /\
     reps3 (orep h ps) js (firstn len (skipn off cells)) fps /\
     ((~ aaddr ps a /\ concat fps = [] /\ fp = []) \/
-     (In (PArr a 0) ps /\ off = 0 /\ cap = length cells /\ Forall (eq HNull) (skipn len cells) /\ fp = a :: concat fps)).
+     (In (PArr a 0) ps /\ off = 0 /\ cap = length cells /\ fp = a :: concat fps)).
 Proof.
   cbn [orep]. split; intros (a & off & len & cap & cells & fps & H1 & H2 & H3 & H4 & H5);
     exists a, off, len, cap, cells, fps; repeat split; auto; apply reps_fix_iff; auto.
@@ -339,7 +339,7 @@ Lemma orep_fp : forall j h ps v fp, orep h ps j v fp -> forall a, In a fp -> aad
 Proof.
   induction j using jv_ind'; intros h ps v fp Hr a0 Hin;
     try (destruct Hr as [_ ->]; destruct Hin).
-  - apply orep_arr in Hr as (a & off & len & cap & cells & fps & -> & Hn & Hl & Hc & [(Hf & Hcc & ->)|(Hp & -> & -> & Hj & ->)]).
+  - apply orep_arr in Hr as (a & off & len & cap & cells & fps & -> & Hn & Hl & Hc & [(Hf & Hcc & ->)|(Hp & -> & -> & ->)]).
     { destruct Hin. }
     destruct Hin as [<-|Hin]. { split. left; eauto. eapply nth_error_lt; eauto. }
     apply in_concat in Hin as (f & Hf & Ha).
@@ -365,14 +365,14 @@ Proof.
     pose proof (nth_error_lt _ _ _ Hn) as Ha.
     apply orep_arr. exists a, off, len, cap, cells, fps.
     assert (Hsame : nth_error h' a = Some (OArr cells)).
-    { rewrite Hh; auto. destruct Hcase as [(Hf & _)|(_ & _ & _ & _ & ->)]; [left|right; left]; auto. }
+    { rewrite Hh; auto. destruct Hcase as [(Hf & _)|(_ & _ & _ & ->)]; [left|right; left]; auto. }
     repeat split; auto.
     + eapply reps3_mono_in; [|exact Hc]. rewrite Forall_forall in *. intros x Hx y z Hz Hxr.
       eapply H; eauto. intros a0 Ha0 [Hna|Hin]; apply Hh; auto.
-      right. destruct Hcase as [(_ & Hcc & _)|(_ & _ & _ & _ & ->)].
+      right. destruct Hcase as [(_ & Hcc & _)|(_ & _ & _ & ->)].
       * assert (In a0 (concat fps)) by (eapply in_concat_of; eauto). rewrite Hcc in H0. destruct H0.
       * right. eapply in_concat_of; eauto.
-    + destruct Hcase as [(Hf & Hcc & ->)|(Hp & -> & -> & Hj & ->)]; [left|right]; repeat split; auto.
+    + destruct Hcase as [(Hf & Hcc & ->)|(Hp & -> & -> & ->)]; [left|right]; repeat split; auto.
       intro Hx. destruct (Hnew _ Hx); auto. lia.
   - apply orep_obj in Hr as (a & kvs & fps & -> & Hn & Hs & Hc & Hcase).
     pose proof (nth_error_lt _ _ _ Hn) as Ha.
@@ -454,9 +454,25 @@ Definition post (h : heap) (ps : list ptr) (fp : list nat) (h' : heap) (ps' : li
 
 Section Sound.
 Variable cfg : config.
+(* the in-place growth clears the cells it exposes (the code since 73ac0b6): needed because the invariant lets
+   the hidden cells of an owned array hold anything *)
+Hypothesis Hclear : clear_exposed cfg = true.
 
-Definition sound_at (p : path) : Prop := forall h ps v j fp n jn,
-  alloc_wf ps -> orep h ps j v fp -> NoDup fp -> orep h ps jn n [] ->
+(* The statement proved by induction on the path, for a NEW VALUE n that may own allocated containers (footprint
+   fn) under a side condition [cond h ps v p fn] relating fn to the value v and the path p:
+   - [cond] = "fn is empty" gives [sound_at], the theorem for a frozen new value;
+   - [cond] = [own_at] (below) = "every container of fn is owned by the value stored at p" gives the theorem for an
+     update body that returns a PART of its input: the input itself, a child, a prefix slice .[:k] of an owned
+     array (same pointer, smaller length, stale cells behind it).
+   What the induction needs from [cond]: at the end of the path fn lies inside the footprint of the value that
+   is replaced, and the condition follows the navigation step of getpath. *)
+Section Gen.
+Variable cond : heap -> list ptr -> hval -> path -> list nat -> Prop.
+Hypothesis cond_nil : forall h ps v j fp fn, cond h ps v [] fn -> orep h ps j v fp -> incl fn fp.
+Hypothesis cond_step : forall h ps v c r fn x, cond h ps v (c :: r) fn -> h_index2 h v c = Some x -> cond h ps x r fn.
+
+Definition sound_g (p : path) : Prop := forall h ps v j fp n jn fn,
+  alloc_wf ps -> orep h ps j v fp -> NoDup fp -> orep h ps jn n fn -> NoDup fn -> cond h ps v p fn ->
   match Path.update j p jn with
   | None => update cfg h (Some ps) v p n = None
   | Some j' => exists h' ps' u fp', update cfg h (Some ps) v p n = Some (h', Some ps', u) /\
@@ -476,10 +492,11 @@ Lemma post_intro : forall h ps fp h' ps' fp',
   (forall a, length h <= a -> a < length h' -> aaddr ps' a) -> post h ps fp h' ps' fp'.
 Proof. intros. unfold post. auto 10. Qed.
 
-Lemma sound_nil : sound_at [].
+Lemma sound_nil_g : sound_g [].
 Proof.
-  intros h ps v j fp n jn Hwf Hr ND Hn. simpl. exists h, ps, n, []. split; auto. split; auto. split. constructor.
-  apply post_intro; auto; try (intros; simpl in *; tauto); intros; lia.
+  intros h ps v j fp n jn fn Hwf Hr ND Hn NDn Hc. simpl. exists h, ps, n, fn. split; auto. split; auto. split; auto.
+  apply post_intro; auto; try (intros; simpl in *; tauto); try (intros; lia).
+  intros a Ha. left. eapply cond_nil; eauto.
 Qed.
 
 (* ------------------------------------------------------------------------------------------------ *)
@@ -726,14 +743,14 @@ Qed.
 Lemma post_trans_child : forall h ps fx h1 ps1 fu, post h ps fx h1 ps1 fu -> alloc_wf ps1.
 Proof. intros. destruct H as (_ & _ & _ & _ & _ & H & _). auto. Qed.
 
-Lemma sound_key : forall k r, sound_at r -> sound_at (PK k :: r).
+Lemma sound_key_g : forall k r, sound_g r -> sound_g (PK k :: r).
 Proof.
-  intros k r IH h ps v j fp n jn Hwf Hr ND Hn.
+  intros k r IH h ps v j fp n jn fn Hwf Hr ND Hn NDn Hcond.
   rewrite update_key_eq.
   pose proof (orep_is_empty _ _ _ _ _ Hn) as Hemp.
   (* the common continuation: child (jx, x) with footprint lookupf k kvs fps *)
   assert (Hcont : forall jm kvs fps jx x,
-    obj_node h ps jm v kvs fps fp -> orep h ps jx x (lookupf k kvs fps) ->
+    obj_node h ps jm v kvs fps fp -> orep h ps jx x (lookupf k kvs fps) -> h_index2 h v (PK k) = Some x ->
     match Path.update jx r jn with
     | None => match update cfg h (Some ps) x r n with
               | None => None | Some (h1, A1, u) => obj_write h1 A1 v k u end = None
@@ -742,13 +759,13 @@ Proof.
         | None => None | Some (h1, A1, u) => obj_write h1 A1 v k u end = Some (h', Some ps', w) /\
         orep h' ps' (JObj (insert k ju jm)) w fp' /\ NoDup fp' /\ post h ps fp h' ps' fp'
     end).
-  { intros jm kvs fps jx x Hnode Hx.
+  { intros jm kvs fps jx x Hnode Hx Hix.
     assert (NDx : NoDup (lookupf k kvs fps)).
     { destruct Hnode as [(_ & _ & _ & -> & _) | (a & _ & _ & _ & _ & [(_ & Hc & _) | (_ & ->)])].
       - destruct kvs as [|[? ?] ?]; constructor.
       - apply NoDup_lookupf. rewrite Hc. constructor.
       - apply NoDup_lookupf. inversion ND; auto. }
-    specialize (IH h ps x jx _ n jn Hwf Hx NDx Hn).
+    specialize (IH h ps x jx _ n jn fn Hwf Hx NDx Hn NDn (cond_step _ _ _ _ _ _ _ Hcond Hix)).
     destruct (Path.update jx r jn) as [ju|].
     - destruct IH as (h1 & ps1 & u & fu & -> & Hu & NDu & Hpost).
       eapply key_step; eauto.
@@ -759,7 +776,7 @@ Proof.
     destruct (is_empty jn).
     + exists h, ps, HNull, []. repeat split; auto; try constructor; try (intros; simpl in *; tauto); try (intros; lia).
     + assert (Hc0 : obj_node h ps [] HNull [] [] []) by (left; auto 6).
-      pose proof (Hcont [] [] [] JNull HNull Hc0 (conj eq_refl eq_refl)) as Hc1.
+      pose proof (Hcont [] [] [] JNull HNull Hc0 (conj eq_refl eq_refl) eq_refl) as Hc1.
       destruct (Path.update JNull r jn); exact Hc1.
   - destruct Hr as [-> _]. auto.
   - destruct Hr as [-> _]. auto.
@@ -773,12 +790,14 @@ Proof.
     assert (Hnode : obj_node h ps m (HMap a) kvs fps fp). { right. exists a. auto 6. }
     pose proof (repm3_lookup _ _ _ _ k Hc) as Hl.
     destruct (lookup k m) as [jx|] eqn:L1; destruct (lookup k kvs) as [x|] eqn:L2; try contradiction.
-    + pose proof (Hcont m kvs fps jx x Hnode Hl) as Hc1.
+    + assert (Hix : h_index2 h (HMap a) (PK k) = Some x) by (cbn [h_index2]; rewrite (kvs_of_nth _ _ _ Hna), L2; auto).
+      pose proof (Hcont m kvs fps jx x Hnode Hl Hix) as Hc1.
       destruct (Path.update jx r jn); exact Hc1.
     + rewrite <- Hemp. destruct (is_empty jn).
       * exists h, ps, (HMap a), fp. repeat split; auto; try (intros; simpl in *; tauto); try (intros; lia).
       * assert (Hx0 : orep h ps JNull HNull (lookupf k kvs fps)) by (rewrite lookupf_none by auto; split; auto).
-        pose proof (Hcont m kvs fps JNull HNull Hnode Hx0) as Hc1.
+        assert (Hix : h_index2 h (HMap a) (PK k) = Some HNull) by (cbn [h_index2]; rewrite (kvs_of_nth _ _ _ Hna), L2; auto).
+        pose proof (Hcont m kvs fps JNull HNull Hnode Hx0 Hix) as Hc1.
         destruct (Path.update JNull r jn); exact Hc1.
 Qed.
 
@@ -841,6 +860,10 @@ Qed.
 
 (* ------------------------------------------------------------------------------------------------ *)
 (* updateArrayIndex *)
+Lemma write_cell_eq0 : forall h a c i x, nth_error h a = Some (OArr c) ->
+  write_cell h a i x = set_list h a (OArr (set_list c i x)).
+Proof. intros. unfold write_cell, set_obj. rewrite (cells_of_nth _ _ _ H). auto. Qed.
+
 Definition arr_write (h1 : heap) (A1 : alloc) (v : hval) (i : nat) (u : hval) : option (heap * alloc * hval) :=
   let l := hlen v in let c := hcap v in
   let fresh (c : nat) :=
@@ -854,13 +877,85 @@ Definition arr_write (h1 : heap) (A1 : alloc) (v : hval) (i : nat) (u : hval) : 
   if allocated A1 v then
     if Nat.ltb i c then
       match v with
-      | HArr a off _ cap => Some (write_cell h1 a (off + i) u, A1, HArr a off (if Nat.leb l i then S i else l) cap)
+      | HArr a off _ cap =>
+          Some (write_cell (clear_cells cfg.(clear_exposed) h1 a off l i) a (off + i) u, A1,
+                HArr a off (if Nat.leb l i then S i else l) cap)
       | _ => None
       end
     else fresh (2 * c)
   else fresh c.
 
-Lemma update_idx_eq : forall cfg h A v i r n,
+(* what clear(v[l:i]) and the write of cell i do to the backing array E ++ N (E = the visible cells, N = the
+   hidden ones, ARBITRARY) *)
+Lemma set_list_same0 {X} : forall (l : list X) a o, nth_error l a = Some o -> set_list l a o = l.
+Proof. induction l as [|y l IH]; intros [|a] o H; simpl in *; try discriminate. { inversion H; auto. } f_equal. auto. Qed.
+
+Lemma set_list_twice {X} : forall (l : list X) a o1 o2, set_list (set_list l a o1) a o2 = set_list l a o2.
+Proof. induction l as [|y l IH]; intros [|a] o1 o2; simpl; auto. f_equal. auto. Qed.
+
+Lemma write_cells_at : forall xs h a P R, nth_error h a = Some (OArr (P ++ R)) -> length xs <= length R ->
+  write_cells h a (length P) xs = set_list h a (OArr (P ++ xs ++ skipn (length xs) R)).
+Proof.
+  induction xs as [|x xs IH]; intros h a P R Hn Hl; simpl.
+  - symmetry. apply set_list_same0. auto.
+  - destruct R as [|r0 R]; simpl in Hl; try lia.
+    assert (Ha : a < length h) by (apply nth_error_Some; congruence).
+    rewrite (write_cell_eq0 _ _ (P ++ r0 :: R)) by auto.
+    rewrite set_list_app2 by lia. rewrite Nat.sub_diag. cbn [set_list].
+    replace (P ++ x :: R) with ((P ++ [x]) ++ R) by (rewrite <- app_assoc; auto).
+    replace (S (length P)) with (length (P ++ [x])) by (rewrite app_length; simpl; lia).
+    rewrite (IH _ a (P ++ [x]) R).
+    + rewrite set_list_twice. rewrite <- app_assoc. reflexivity.
+    + apply nth_error_set_list_same. auto.
+    + lia.
+Qed.
+
+Definition cleared (E N : list hval) (i : nat) : list hval :=
+  if Nat.leb (length E) i then E ++ repeat HNull (i - length E) ++ skipn (i - length E) N else E ++ N.
+
+Lemma clear_cells_eq : forall h a (E N : list hval) i, nth_error h a = Some (OArr (E ++ N)) ->
+  i < length E + length N ->
+  clear_cells true h a 0 (length E) i = set_list h a (OArr (cleared E N i)).
+Proof.
+  intros h a E N i Hn Hi. unfold clear_cells, cleared. cbn [andb Nat.add].
+  destruct (Nat.leb (length E) i) eqn:L.
+  - apply Nat.leb_le in L. rewrite (write_cells_at _ h a E N Hn) by (rewrite repeat_length; lia).
+    rewrite repeat_length. reflexivity.
+  - symmetry. apply set_list_same0. auto.
+Qed.
+
+Lemma inplace_cells_w : forall (E N : list hval) i u, i < length E + length N ->
+  let cells' := set_list (cleared E N i) i u in
+  let len' := if Nat.leb (length E) i then S i else length E in
+  firstn len' cells' = set_nth_g HNull E i u /\ length cells' = length E + length N.
+Proof.
+  intros E N i u Hi. cbv zeta. unfold cleared. rewrite set_list_length.
+  destruct (Nat.leb (length E) i) eqn:L.
+  - apply Nat.leb_le in L. set (k := i - length E).
+    assert (Hsk : exists y R, skipn k N = y :: R).
+    { destruct (skipn k N) eqn:Es; eauto. exfalso.
+      assert (length (skipn k N) = 0) by (rewrite Es; auto). rewrite skipn_length in H. unfold k in H. lia. }
+    destruct Hsk as (y & R & Hsk). rewrite Hsk.
+    assert (HlenR : S (length R) = length N - k).
+    { rewrite <- skipn_length, Hsk. auto. }
+    split.
+    + replace (E ++ repeat HNull k ++ y :: R) with ((E ++ repeat HNull k) ++ y :: R) by (rewrite <- app_assoc; auto).
+      rewrite set_list_app2 by (rewrite app_length, repeat_length; unfold k; lia).
+      replace (i - length (E ++ repeat HNull k)) with 0 by (rewrite app_length, repeat_length; unfold k; lia).
+      cbn [set_list].
+      replace ((E ++ repeat HNull k) ++ u :: R) with ((E ++ repeat HNull k ++ [u]) ++ R) by (rewrite <- !app_assoc; auto).
+      rewrite firstn_app_exact by (rewrite !app_length, repeat_length; simpl; unfold k; lia).
+      unfold set_nth_g. fold k.
+      replace (firstn i E) with E by (symmetry; apply firstn_all2; lia).
+      replace (skipn (S i) E) with (@nil hval) by (symmetry; apply skipn_all2; lia). auto.
+    + rewrite !app_length, repeat_length. simpl. unfold k in *. lia.
+  - apply Nat.leb_gt in L. split.
+    + rewrite set_list_app1 by auto. rewrite firstn_app_exact by (rewrite set_list_length; auto).
+      unfold set_nth_g. replace (i - length E) with 0 by lia. simpl. apply set_list_split. auto.
+    + rewrite app_length. auto.
+Qed.
+
+Lemma update_idx_eq : forall h A v i r n,
   update cfg h A v (PI i :: r) n =
   match v with
   | HNull | HNilArr | HArr _ _ _ _ =>
@@ -913,7 +1008,7 @@ Definition arr_node (h : heap) (ps : list ptr) (js : list jv) (v : hval) (E : li
      v = HArr a off len cap /\ nth_error h a = Some (OArr cells) /\ off + len <= length cells /\
      E = firstn len (skipn off cells) /\ reps3 (orep h ps) js E fps /\
      ((~ aaddr ps a /\ concat fps = [] /\ fp = []) \/
-      (In (PArr a 0) ps /\ off = 0 /\ cap = length cells /\ Forall (eq HNull) (skipn len cells) /\ fp = a :: concat fps))).
+      (In (PArr a 0) ps /\ off = 0 /\ cap = length cells /\ fp = a :: concat fps))).
 
 Lemma nth_in_concat : forall (fps : list (list nat)) i a, In a (nth i fps []) -> In a (concat fps).
 Proof.
@@ -1015,14 +1110,14 @@ Proof.
   assert (Hrep : reps3 (orep h ps) js E fps).
   { destruct Hnode as [(_ & -> & -> & -> & _) | (a & off & len & cap & cells & _ & _ & _ & _ & S & _)]; simpl; auto. }
   assert (NDc : NoDup (concat fps)).
-  { destruct Hnode as [(_ & _ & _ & -> & _) | (a & off & len & cap & cells & _ & _ & _ & _ & _ & [(_ & -> & _) | (_ & _ & _ & _ & ->)])];
+  { destruct Hnode as [(_ & _ & _ & -> & _) | (a & off & len & cap & cells & _ & _ & _ & _ & _ & [(_ & -> & _) | (_ & _ & _ & ->)])];
       try constructor. inversion ND; auto. }
   assert (Hcl : forall a, In a (concat fps) -> In a fp /\ a < length h).
-  { destruct Hnode as [(_ & _ & _ & -> & _) | (a & off & len & cap & cells & -> & Hn & Hl & -> & _ & [(_ & -> & _) | (Hp & -> & -> & Hj & ->)])];
+  { destruct Hnode as [(_ & _ & _ & -> & _) | (a & off & len & cap & cells & -> & Hn & Hl & -> & _ & [(_ & -> & _) | (Hp & -> & -> & ->)])];
       try (intros ? []).
     intros a0 Ha0. split; [right; auto|].
     assert (orep h ps (JArr js) (HArr a 0 len (length cells)) (a :: concat fps)).
-    { apply orep_arr. exists a, 0, len, (length cells), cells, fps. repeat split; auto. right. auto 6. }
+    { apply orep_arr. exists a, 0, len, (length cells), cells, fps. repeat split; auto; try (right; auto 6). }
     eapply orep_fp; eauto. right; auto. }
   assert (Hfresh : forall c, (v = HNull \/ exists a off len cap cells, v = HArr a off len cap /\ nth_error h1 a = Some (OArr cells) /\
                              E = firstn len (skipn off cells)) ->
@@ -1044,7 +1139,7 @@ Proof.
         inversion Hc; subst a' off' len' cap'.
         assert (Hsame : nth_error h1 a = nth_error h a).
         { apply P2. eapply nth_error_lt; eauto. intro Hc0.
-          destruct Hcase as [(Hna & _) | (_ & _ & _ & _ & Hfp)]. { apply Hfx in Hc0 as [Hc1 _]. contradiction. }
+          destruct Hcase as [(Hna & _) | (_ & _ & _ & Hfp)]. { apply Hfx in Hc0 as [Hc1 _]. contradiction. }
           subst fp. apply NoDup_cons_iff in ND as [ND1 _]. apply ND1. apply nth_in_concat with (i := i). exact Hc0. }
         rewrite Hn1, Hn in Hsame. inversion Hsame; subst. rewrite firstn_length, skipn_length. lia. }
     destruct Hel as [Hel Hhl]. cbv zeta. unfold make_array, register. rewrite Hel.
@@ -1054,7 +1149,7 @@ Proof.
     edestruct (fresh_step h ps js E fps fp i h1 ps1 ju u fu c) as (R1 & R2 & R3); eauto.
     { intros a Ha. apply Hfx. auto. }
     do 4 eexists. split; [reflexivity|]. eauto. }
-  destruct Hnode as [(-> & -> & -> & -> & ->) | (a & off & len & cap & cells & -> & Hn & Hl & -> & _ & [(Hna & Hcc & ->) | (Hp & -> & -> & Hj & ->)])].
+  destruct Hnode as [(-> & -> & -> & -> & ->) | (a & off & len & cap & cells & -> & Hn & Hl & -> & _ & [(Hna & Hcc & ->) | (Hp & -> & -> & ->)])].
   - (* nil *)
     unfold arr_write. cbn [allocated hlen hcap]. apply (Hfresh 0). left. auto.
   - (* an array the allocator does not know *)
@@ -1078,17 +1173,22 @@ Proof.
     cbn [hlen hcap]. destruct (Nat.ltb i (length cells)) eqn:Lt.
     2:{ apply (Hfresh (2 * length cells)). right. exists a, 0, len, (length cells), cells. auto. }
     apply Nat.ltb_lt in Lt. simpl in Hl.
-    (* in place *)
-    set (E := firstn len cells).
+    (* in place: clear(v[len:i]) then v[i] = u, on a backing array whose hidden cells are arbitrary *)
+    set (E := firstn len cells). set (N := skipn len cells).
     assert (HE : length E = len) by (unfold E; rewrite firstn_length; lia).
-    assert (Hcells : cells = E ++ repeat HNull (length cells - len)).
-    { rewrite <- (firstn_skipn len cells) at 1. fold E. f_equal.
-      rewrite (Forall_eq_repeat _ _ Hj) at 1. rewrite skipn_length. auto. }
-    destruct (inplace_cells E (length cells - len) i u ltac:(lia)) as (I1 & I2 & I3).
-    rewrite <- Hcells in I1, I2, I3. rewrite HE in I1, I2.
+    assert (Hcells : cells = E ++ N) by (unfold E, N; symmetry; apply firstn_skipn).
+    assert (HlenEN : length cells = length E + length N) by (rewrite Hcells at 1; apply app_length).
+    destruct (inplace_cells_w E N i u ltac:(lia)) as (I1 & I3).
+    rewrite HE in I1. rewrite <- HlenEN in I3.
     set (len' := if Nat.leb len i then S i else len) in *.
-    rewrite (write_cell_eq _ _ cells) by auto. cbn [Nat.add].
-    set (h' := set_list h1 a (OArr (set_list cells i u))).
+    set (cells' := set_list (cleared E N i) i u) in *.
+    assert (Hcl1 : clear_cells (clear_exposed cfg) h1 a 0 len i = set_list h1 a (OArr (cleared E N i))).
+    { rewrite Hclear, <- HE. apply clear_cells_eq; [rewrite <- Hcells; auto | lia]. }
+    assert (Ha1 : a < length h1) by lia.
+    rewrite Hcl1.
+    rewrite (write_cell_eq _ _ (cleared E N i)) by (apply nth_error_set_list_same; auto).
+    rewrite set_list_twice. cbn [Nat.add]. fold cells'.
+    set (h' := set_list h1 a (OArr cells')).
     assert (Hother : forall a0, a0 <> a -> nth_error h' a0 = nth_error h1 a0).
     { intros. unfold h'. apply nth_error_set_list_other. auto. }
     assert (NDset : NoDup (concat (set_nth_g [] fps i fu))).
@@ -1096,9 +1196,9 @@ Proof.
       right. intro Hc. apply Hcl in Hc. lia. }
     exists h', ps1, (HArr a 0 len' (length cells)), (a :: concat (set_nth_g [] fps i fu)).
     split; [reflexivity|]. split; [|split].
-    + apply orep_arr. exists a, 0, len', (length cells), (set_list cells i u), (set_nth_g [] fps i fu).
+    + apply orep_arr. exists a, 0, len', (length cells), cells', (set_nth_g [] fps i fu).
       split; [reflexivity|]. split. { unfold h'. apply nth_error_set_list_same. lia. }
-      split. { rewrite set_list_length. unfold len'. destruct (Nat.leb len i); lia. }
+      split. { rewrite I3. unfold len'. destruct (Nat.leb len i); lia. }
       split.
       * rewrite skipn_O, I1, set_nth_is_g. simpl in Hrep. try rewrite skipn_O in Hrep. fold E in Hrep.
         apply (reps3_set_nth_frame (orep h ps)); auto.
@@ -1111,7 +1211,7 @@ Proof.
         -- split; auto.
         -- apply orep_frame with (h := h1) (ps := ps1); [exact Hu | | auto | auto].
            intros a0 Ha0 Hor. apply Hother. intro; subst a0. destruct Hor as [H|H]; auto. apply H. left. eauto.
-      * right. split; auto. split; auto. split. { rewrite set_list_length. auto. } split; auto.
+      * right. split; auto.
     + constructor; auto. intro Hc0. apply in_concat_set_nth in Hc0. tauto.
     + apply post_intro; auto.
       * unfold h'. rewrite set_list_length. auto.
@@ -1123,13 +1223,23 @@ Proof.
       * intros a0 Hge Hlt. apply P7; auto. unfold h' in Hlt. rewrite set_list_length in Hlt. auto.
 Qed.
 
-Lemma sound_idx : forall i r, sound_at r -> sound_at (PI i :: r).
+Lemma h_index2_idx : forall h v i, (v = HNull \/ exists a off len cap, v = HArr a off len cap) ->
+  h_index2 h v (PI i) =
+  Some (let len := Z.of_nat (hlen v) in let j := clamp i (-1) len in
+        if ((0 <=? j) && (j <? len))%Z then nth (Z.to_nat j) (elems h v) HNull else HNull).
 Proof.
-  intros i r IH h ps v j fp n jn Hwf Hr ND Hn.
+  intros h v i [-> | (a & off & len & cap & ->)]; cbn [h_index2 hlen elems]; auto.
+  cbv zeta. destruct ((0 <=? clamp i (-1) (Z.of_nat 0)) && (clamp i (-1) (Z.of_nat 0) <? Z.of_nat 0))%Z eqn:E; auto.
+  apply andb_true_iff in E as [E1 E2]. apply Z.leb_le in E1. apply Z.ltb_lt in E2. lia.
+Qed.
+
+Lemma sound_idx_g : forall i r, sound_g r -> sound_g (PI i :: r).
+Proof.
+  intros i r IH h ps v j fp n jn fn Hwf Hr ND Hn NDn Hcond.
   rewrite update_idx_eq.
   pose proof (orep_is_empty _ _ _ _ _ Hn) as Hemp.
   assert (Hcont : forall js E fps k jx x,
-    arr_node h ps js v E fps fp -> orep h ps jx x (nth k fps []) ->
+    arr_node h ps js v E fps fp -> orep h ps jx x (nth k fps []) -> h_index2 h v (PI i) = Some x ->
     match Path.update jx r jn with
     | None => match update cfg h (Some ps) x r n with
               | None => None | Some (h1, A1, u) => arr_write h1 A1 v k u end = None
@@ -1138,13 +1248,13 @@ Proof.
         | None => None | Some (h1, A1, u) => arr_write h1 A1 v k u end = Some (h', Some ps', w) /\
         orep h' ps' (JArr (set_nth js k ju)) w fp' /\ NoDup fp' /\ post h ps fp h' ps' fp'
     end).
-  { intros js E fps k jx x Hnode Hx.
+  { intros js E fps k jx x Hnode Hx Hix.
     assert (NDx : NoDup (nth k fps [])).
-    { destruct Hnode as [(_ & _ & _ & -> & _) | (a & off & len & cap & cells & _ & _ & _ & _ & _ & [(_ & Hc & _) | (_ & _ & _ & _ & ->)])].
+    { destruct Hnode as [(_ & _ & _ & -> & _) | (a & off & len & cap & cells & _ & _ & _ & _ & _ & [(_ & Hc & _) | (_ & _ & _ & ->)])].
       - destruct k; constructor.
       - apply NoDup_nth. rewrite Hc. constructor.
       - apply NoDup_nth. inversion ND; auto. }
-    specialize (IH h ps x jx _ n jn Hwf Hx NDx Hn).
+    specialize (IH h ps x jx _ n jn fn Hwf Hx NDx Hn NDn (cond_step _ _ _ _ _ _ _ Hcond Hix)).
     destruct (Path.update jx r jn) as [ju|].
     - destruct IH as (h1 & ps1 & u & fu & -> & Hu & NDu & Hpost).
       eapply arr_step; eauto.
@@ -1188,7 +1298,13 @@ Proof.
               | None => None | Some (h1, A1, u) => arr_write h1 A1 v (Z.to_nat i) u end) = Some (h', Some ps', u) /\
         orep h' ps' j' u fp' /\ NoDup fp' /\ post h ps fp h' ps' fp'
     end).
-  { intros js E fps Hnode Hel Hhl Hnn. cbv zeta. unfold zlen. rewrite Hhl, Hel, Hnn, <- Hemp.
+  { intros js E fps Hnode Hel Hhl Hnn.
+    assert (Hix : h_index2 h v (PI i) =
+                  Some (if ((0 <=? clamp i (-1) (Z.of_nat (length js))) && (clamp i (-1) (Z.of_nat (length js)) <? Z.of_nat (length js)))%Z
+                        then nth (Z.to_nat (clamp i (-1) (Z.of_nat (length js)))) E HNull else HNull)).
+    { rewrite h_index2_idx. 2:{ destruct Hnode as [(-> & _) | (a & off & len & cap & cells & -> & _)]; eauto 6. }
+      cbv zeta. rewrite Hhl, Hel. auto. }
+    cbv zeta. unfold zlen. rewrite Hhl, Hel, Hnn, <- Hemp.
     assert (Hrep : reps3 (orep h ps) js E fps).
     { destruct Hnode as [(_ & -> & -> & -> & _) | (a & off & len & cap & cells & _ & _ & _ & _ & S & _)]; simpl; auto. }
     destruct (reps3_length _ _ _ _ Hrep) as [L1 L2].
@@ -1197,7 +1313,8 @@ Proof.
     { destruct (is_empty jn); auto. exists h, ps, v, fp. repeat split; auto; try (intros; simpl in *; tauto); try (intros; lia). }
     destruct (j0 <? Z.of_nat (length js))%Z eqn:E2.
     { assert (Hk : Z.to_nat j0 < length js) by lia.
-      pose proof (Hcont js E fps (Z.to_nat j0) _ _ Hnode (reps3_nth _ JNull HNull [] _ _ _ _ Hrep Hk)) as Hc1.
+      fold j0 in Hix. rewrite E2 in Hix. replace (0 <=? j0)%Z with true in Hix by lia. cbn [andb] in Hix.
+      pose proof (Hcont js E fps (Z.to_nat j0) _ _ Hnode (reps3_nth _ JNull HNull [] _ _ _ _ Hrep Hk) Hix) as Hc1.
       destruct (Path.update (nth (Z.to_nat j0) js JNull) r jn); exact Hc1. }
     destruct (is_empty jn).
     { exists h, ps, v, fp. repeat split; auto; try (intros; simpl in *; tauto); try (intros; lia). }
@@ -1207,7 +1324,8 @@ Proof.
       repeat match type of E2 with context [if ?c then _ else _] => destruct c eqn:? end; lia. }
     assert (Hx0 : orep h ps JNull HNull (nth (Z.to_nat i) fps [])).
     { rewrite nth_overflow by lia. split; auto. }
-    pose proof (Hcont js E fps (Z.to_nat i) _ _ Hnode Hx0) as Hc1.
+    fold j0 in Hix. rewrite E2, andb_false_r in Hix.
+    pose proof (Hcont js E fps (Z.to_nat i) _ _ Hnode Hx0 Hix) as Hc1.
     destruct (Path.update JNull r jn); exact Hc1. }
   destruct j; cbn [Path.update].
   - destruct Hr as [-> ->]. apply (Hmain [] [] []); auto. left. auto 6.
@@ -1225,6 +1343,45 @@ Proof.
   - apply orep_obj in Hr as (a & kvs & fps & -> & _). auto.
 Qed.
 
+Theorem update_sound_g : forall p, no_slice p -> sound_g p.
+Proof.
+  induction p as [|c p IH]; intros Hns. { apply sound_nil_g. }
+  inversion Hns; subst. destruct c; simpl in H1; try contradiction.
+  - apply sound_key_g. auto.
+  - apply sound_idx_g. auto.
+Qed.
+End Gen.
+
+(* ---- instance 1: a frozen new value (no allocated container inside it) ---- *)
+Definition cond_frozen (h : heap) (ps : list ptr) (v : hval) (p : path) (fn : list nat) : Prop := fn = [].
+
+Definition sound_at (p : path) : Prop := forall h ps v j fp n jn,
+  alloc_wf ps -> orep h ps j v fp -> NoDup fp -> orep h ps jn n [] ->
+  match Path.update j p jn with
+  | None => update cfg h (Some ps) v p n = None
+  | Some j' => exists h' ps' u fp', update cfg h (Some ps) v p n = Some (h', Some ps', u) /\
+                 orep h' ps' j' u fp' /\ NoDup fp' /\ post h ps fp h' ps' fp'
+  end.
+
+Lemma frozen_nil : forall h ps v j fp fn, cond_frozen h ps v [] fn -> orep h ps j v fp -> incl fn fp.
+Proof. intros h ps v j fp fn -> _ a []. Qed.
+Lemma frozen_step : forall h ps v c r fn x, cond_frozen h ps v (c :: r) fn -> h_index2 h v c = Some x -> cond_frozen h ps x r fn.
+Proof. intros. exact H. Qed.
+
+Lemma sound_at_g : forall p, sound_at p <-> sound_g cond_frozen p.
+Proof.
+  intros p. split.
+  - intros H h ps v j fp n jn fn Hwf Hr ND Hn _ Hc. unfold cond_frozen in Hc. subst fn. apply H; auto.
+  - intros H h ps v j fp n jn Hwf Hr ND Hn. apply (H h ps v j fp n jn []); auto. constructor. reflexivity.
+Qed.
+
+Lemma sound_nil : sound_at [].
+Proof. apply sound_at_g. apply sound_nil_g. exact frozen_nil. Qed.
+Lemma sound_key : forall k r, sound_at r -> sound_at (PK k :: r).
+Proof. intros k r H. apply sound_at_g. apply (sound_key_g cond_frozen frozen_step). apply sound_at_g. auto. Qed.
+Lemma sound_idx : forall i r, sound_at r -> sound_at (PI i :: r).
+Proof. intros i r H. apply sound_at_g. apply (sound_idx_g cond_frozen frozen_step). apply sound_at_g. auto. Qed.
+
 Theorem update_sound : forall p, no_slice p -> sound_at p.
 Proof.
   induction p as [|c p IH]; intros Hns. { apply sound_nil. }
@@ -1232,4 +1389,24 @@ Proof.
   - apply sound_key. auto.
   - apply sound_idx. auto.
 Qed.
+
+(* ---- instance 2: the new value is made of containers OWNED BY THE VALUE IT REPLACES ----
+   [own_at h ps v p fn]: following p from v the way getpath does (h_index2: aliases), the value found there
+   has a footprint that contains fn.  Off the end of the data (missing key, index beyond the length, null) the
+   value found is null, its footprint is empty, so fn must be empty: the frozen case. *)
+Fixpoint own_at (h : heap) (ps : list ptr) (v : hval) (p : path) (fn : list nat) : Prop :=
+  match p with
+  | [] => forall j fp, orep h ps j v fp -> incl fn fp
+  | c :: r => match h_index2 h v c with Some x => own_at h ps x r fn | None => fn = [] end
+  end.
+
+Lemma own_nil : forall h ps v j fp fn, own_at h ps v [] fn -> orep h ps j v fp -> incl fn fp.
+Proof. intros h ps v j fp fn H Hr. exact (H j fp Hr). Qed.
+Lemma own_step : forall h ps v c r fn x, own_at h ps v (c :: r) fn -> h_index2 h v c = Some x -> own_at h ps x r fn.
+Proof. intros h ps v c r fn x H Hx. cbn [own_at] in H. rewrite Hx in H. exact H. Qed.
+
+Definition sound_own (p : path) : Prop := sound_g own_at p.
+
+Theorem update_sound_own : forall p, no_slice p -> sound_own p.
+Proof. intros p Hp. apply (update_sound_g own_at own_nil own_step p Hp). Qed.
 End Sound.
